@@ -351,10 +351,11 @@ func (s *UtxoStore) removeUnminedGameHistory(tx mwdb.DBTransaction, rec *TxRecor
 	return nil
 }
 
+// removeRelevantCredit also returns the unmined transactions that spend a deleted credit.
 func (s *UtxoStore) removeRelevantCredit(tx mwdb.DBTransaction,
-	scriptHashSet map[string]struct{}) (map[wire.Hash]uint64, bool, error) {
+	scriptHashSet map[string]struct{}) (map[wire.Hash]uint64, map[wire.Hash]struct{}, bool, error) {
 	if len(scriptHashSet) == 0 {
-		return nil, true, nil
+		return nil, nil, true, nil
 	}
 	nsDebits := tx.FetchBucket(s.bucketMeta.nsDebits)
 	nsCredits := tx.FetchBucket(s.bucketMeta.nsCredits)
@@ -367,6 +368,7 @@ func (s *UtxoStore) removeRelevantCredit(tx mwdb.DBTransaction,
 		block: &BlockMeta{},
 	}
 	heightOfTx := make(map[wire.Hash]uint64)
+	spenders := make(map[wire.Hash]struct{})
 
 	count := 0
 	finish := true
@@ -374,11 +376,11 @@ func (s *UtxoStore) removeRelevantCredit(tx mwdb.DBTransaction,
 		itKey, itValue := iter.Key(), iter.Value()
 		err := readRawCreditKey(itKey, &cred)
 		if err != nil {
-			return nil, false, err
+			return nil, nil, false, err
 		}
 		err = readCreditValue(itValue, &cred)
 		if err != nil {
-			return nil, false, err
+			return nil, nil, false, err
 		}
 		if _, ok := scriptHashSet[string(cred.scriptHash)]; ok {
 
@@ -391,7 +393,7 @@ func (s *UtxoStore) removeRelevantCredit(tx mwdb.DBTransaction,
 
 			err = deleteRawCredit(nsCredits, itKey)
 			if err != nil {
-				return nil, false, err
+				return nil, nil, false, err
 			}
 			logging.CPrint(logging.DEBUG, "delete relevant credit",
 				logging.LogFormat{
@@ -399,9 +401,15 @@ func (s *UtxoStore) removeRelevantCredit(tx mwdb.DBTransaction,
 					"index": cred.outPoint.Index,
 				})
 			k := canonicalOutPoint(&cred.outPoint.Hash, cred.outPoint.Index)
-			err = deleteRawUnminedInput(nsUnminedInputs, k)
+			// the unmined transactions spending this coin: the caller decides which of them go
+			// (and takes those out of the spent marks); the marks of the ones that stay are kept,
+			// a confirmed double spend must still find them
+			sps, err := fetchUnminedInputSpendTxHashes(nsUnminedInputs, k)
 			if err != nil {
-				return nil, false, err
+				return nil, nil, false, err
+			}
+			for _, sp := range sps {
+				spenders[sp] = struct{}{}
 			}
 
 			if cred.flags.Spent {
@@ -410,7 +418,16 @@ func (s *UtxoStore) removeRelevantCredit(tx mwdb.DBTransaction,
 				if debitKey != nil {
 					err = deleteRawDebit(nsDebits, debitKey)
 					if err != nil {
-						return nil, false, err
+						return nil, nil, false, err
+					}
+					// the spending transaction may have been recorded only because it spends this
+					// coin: the caller looks at its tx record as well
+					spender := credit{block: &BlockMeta{}}
+					if err := readRawCreditKey(debitKey, &spender); err != nil {
+						return nil, nil, false, err
+					}
+					if _, ok := heightOfTx[spender.outPoint.Hash]; !ok {
+						heightOfTx[spender.outPoint.Hash] = spender.block.Height
 					}
 				} else {
 					// double check
@@ -419,17 +436,17 @@ func (s *UtxoStore) removeRelevantCredit(tx mwdb.DBTransaction,
 							"tx":    cred.outPoint.Hash.String(),
 							"index": cred.outPoint.Index,
 						})
-					return nil, false, fmt.Errorf("unexpected error")
+					return nil, nil, false, fmt.Errorf("unexpected error")
 				}
 			}
 			heightOfTx[cred.outPoint.Hash] = cred.block.Height
 		}
 	}
 	if err := iter.Error(); err != nil {
-		return nil, false, err
+		return nil, nil, false, err
 	}
 	logging.CPrint(logging.INFO, "deleting credits", logging.LogFormat{"count": count})
-	return heightOfTx, finish, nil
+	return heightOfTx, spenders, finish, nil
 }
 
 func (s *UtxoStore) removeRelevantUnminedCredit(tx mwdb.DBTransaction,
@@ -467,9 +484,13 @@ func (s *UtxoStore) removeRelevantUnminedCredit(tx mwdb.DBTransaction,
 					"index": cred.outPoint.Index,
 				})
 			k := canonicalOutPoint(&cred.outPoint.Hash, cred.outPoint.Index)
-			err = deleteRawUnminedInput(nsUnminedInputs, k)
+			// an unmined transaction spending this unmined credit concerns the wallet as well
+			sps, err := fetchUnminedInputSpendTxHashes(nsUnminedInputs, k)
 			if err != nil {
 				return nil, err
+			}
+			for _, sp := range sps {
+				txs[sp] = struct{}{}
 			}
 			txs[cred.outPoint.Hash] = struct{}{}
 		}
